@@ -15,10 +15,14 @@ mod c07;
 mod c08;
 mod c09;
 mod tgen;
+mod c10;
+mod c18;
 mod c11;
 mod c12;
 mod c13;
 mod c14;
+mod c15;
+mod c16;
 mod c17;
 
 use engine::{Ctx, Tier};
@@ -57,7 +61,7 @@ fn main() {
       }
     };
   }
-  dispatch!("C01" => c01, "C02" => c02, "C03" => c03, "C04" => c04, "C05" => c05, "C06" => c06, "C07" => c07, "C08" => c08, "C09" => c09, "C11" => c11, "C12" => c12, "C13" => c13, "C14" => c14, "C17" => c17);
+  dispatch!("C01" => c01, "C02" => c02, "C03" => c03, "C04" => c04, "C05" => c05, "C06" => c06, "C07" => c07, "C08" => c08, "C09" => c09, "C10" => c10, "C18" => c18, "C11" => c11, "C12" => c12, "C13" => c13, "C14" => c14, "C15" => c15, "C16" => c16, "C17" => c17);
 }
 
 #[allow(dead_code)]
